@@ -76,6 +76,13 @@ OPEN_TYPE_ber_get(const asn_codec_ctx_t *opt_codec_ctx,
         if(CHOICE_variant_set_presence(elm->type, *memb_ptr2, 0) != 0) {
             ASN__DECODE_FAILED;
         }
+    } else {
+        /* An OPTIONAL open type is held by pointer */
+        const asn_CHOICE_specifics_t *specs = elm->type->specifics;
+        *memb_ptr2 = CALLOC(1, specs->struct_size);
+        if(*memb_ptr2 == NULL) {
+            ASN__DECODE_FAILED;
+        }
     }
 
     variant = &elm->type->elements[selected.presence_index - 1];
@@ -117,15 +124,16 @@ OPEN_TYPE_ber_get(const asn_codec_ctx_t *opt_codec_ctx,
     if(*memb_ptr2) {
         const asn_CHOICE_specifics_t *specs =
             elm->type->specifics;
-        if(elm->flags & ATF_POINTER) {
-            ASN_STRUCT_FREE(*selected.type_descriptor, inner_value);
-            *memb_ptr2 = NULL;
-        } else if(variant->flags & ATF_POINTER) {
+        if(variant->flags & ATF_POINTER) {
             ASN_STRUCT_FREE(*selected.type_descriptor, *inner_value_p);
-            memset(*memb_ptr2, 0, specs->struct_size);
         } else {
             ASN_STRUCT_FREE_CONTENTS_ONLY(*selected.type_descriptor,
                                           inner_value);
+        }
+        if(elm->flags & ATF_POINTER) {
+            FREEMEM(*memb_ptr2);
+            *memb_ptr2 = NULL;
+        } else {
             memset(*memb_ptr2, 0, specs->struct_size);
         }
     }
@@ -165,7 +173,6 @@ OPEN_TYPE_xer_get(const asn_codec_ctx_t *opt_codec_ctx,
     }
 
     /* Fetch the pointer to this member */
-    assert(elm->flags == ATF_OPEN_TYPE);
     if(elm->flags & ATF_POINTER) {
         memb_ptr2 = (void **)((char *)sptr + elm->memb_offset);
     } else {
@@ -174,8 +181,14 @@ OPEN_TYPE_xer_get(const asn_codec_ctx_t *opt_codec_ctx,
     }
     if(*memb_ptr2 != NULL) {
         /* Make sure we reset the structure first before encoding */
-        if(CHOICE_variant_set_presence(elm->type, *memb_ptr2, 0)
-           != 0) {
+        if(CHOICE_variant_set_presence(elm->type, *memb_ptr2, 0) != 0) {
+            ASN__DECODE_FAILED;
+        }
+    } else {
+        /* An OPTIONAL open type is held by pointer */
+        const asn_CHOICE_specifics_t *specs = elm->type->specifics;
+        *memb_ptr2 = CALLOC(1, specs->struct_size);
+        if(*memb_ptr2 == NULL) {
             ASN__DECODE_FAILED;
         }
     }
@@ -250,15 +263,16 @@ OPEN_TYPE_xer_get(const asn_codec_ctx_t *opt_codec_ctx,
         if(*memb_ptr2) {
             const asn_CHOICE_specifics_t *specs =
                 elm->type->specifics;
-            if(elm->flags & ATF_POINTER) {
-                ASN_STRUCT_FREE(*selected.type_descriptor, inner_value);
-                *memb_ptr2 = NULL;
-            } else if(variant->flags & ATF_POINTER) {
+            if(variant->flags & ATF_POINTER) {
                 ASN_STRUCT_FREE(*selected.type_descriptor, *inner_value_p);
-                memset(*memb_ptr2, 0, specs->struct_size);
             } else {
                 ASN_STRUCT_FREE_CONTENTS_ONLY(*selected.type_descriptor,
                                               inner_value);
+            }
+            if(elm->flags & ATF_POINTER) {
+                FREEMEM(*memb_ptr2);
+                *memb_ptr2 = NULL;
+            } else {
                 memset(*memb_ptr2, 0, specs->struct_size);
             }
         }
@@ -335,7 +349,6 @@ OPEN_TYPE_uper_get(const asn_codec_ctx_t *opt_codec_ctx,
     }
 
     /* Fetch the pointer to this member */
-    assert(elm->flags == ATF_OPEN_TYPE);
     if(elm->flags & ATF_POINTER) {
         memb_ptr2 = (void **)((char *)sptr + elm->memb_offset);
     } else {
@@ -344,8 +357,14 @@ OPEN_TYPE_uper_get(const asn_codec_ctx_t *opt_codec_ctx,
     }
     if(*memb_ptr2 != NULL) {
         /* Make sure we reset the structure first before encoding */
-        if(CHOICE_variant_set_presence(elm->type, *memb_ptr2, 0)
-           != 0) {
+        if(CHOICE_variant_set_presence(elm->type, *memb_ptr2, 0) != 0) {
+            ASN__DECODE_FAILED;
+        }
+    } else {
+        /* An OPTIONAL open type is held by pointer */
+        const asn_CHOICE_specifics_t *specs = elm->type->specifics;
+        *memb_ptr2 = CALLOC(1, specs->struct_size);
+        if(*memb_ptr2 == NULL) {
             ASN__DECODE_FAILED;
         }
     }
@@ -377,15 +396,16 @@ OPEN_TYPE_uper_get(const asn_codec_ctx_t *opt_codec_ctx,
         if(*memb_ptr2) {
             const asn_CHOICE_specifics_t *specs =
                 elm->type->specifics;
-            if(elm->flags & ATF_POINTER) {
-                ASN_STRUCT_FREE(*selected.type_descriptor, inner_value);
-                *memb_ptr2 = NULL;
-            } else if(variant->flags & ATF_POINTER) {
+            if(variant->flags & ATF_POINTER) {
                 ASN_STRUCT_FREE(*selected.type_descriptor, *inner_value_p);
-                memset(*memb_ptr2, 0, specs->struct_size);
             } else {
                 ASN_STRUCT_FREE_CONTENTS_ONLY(*selected.type_descriptor,
                                               inner_value);
+            }
+            if(elm->flags & ATF_POINTER) {
+                FREEMEM(*memb_ptr2);
+                *memb_ptr2 = NULL;
+            } else {
                 memset(*memb_ptr2, 0, specs->struct_size);
             }
         }
